@@ -6,7 +6,7 @@ import QmcModel.HeatBath
 open Qmc Qmc.Proto
 
 /-
-C08 driver. Kinds:
+C08 driver (the step function lives in QmcModel/HeatBath.lean, `Proto.diagStep`, shared with C02). Kinds:
   msweep <ham> <beta> <cutoff> <state> <slots> <script>            → <slots'> <state'> <verdict>
   hsweep <ham> <table> <beta> <cutoff> <state> <slots> <script>    → <slots'> <state'> <verdict>
   bw <ham>                                                         → <maxw list> <cumulative list>
@@ -14,54 +14,6 @@ C08 driver. Kinds:
   hprob <ham> <table> <beta> <cutoff> <state> <slots> <script> <k> <b> → <n_k> ~attempt ~pick ~accept ~remove
 -/
 
-def showRes (c : Config) (rs : RS) : String :=
-  s!"{showSlots c.slots} {showBits c.state} {rs.verdict}"
-
-def step (toks : List String) : String :=
-  match toks with
-  | ["msweep", ham, beta, cutoff, state, slots, script] =>
-    let H := tableHam (parseTableHam ham)
-    let c : Config := { state := parseBits state, slots := parseSlots slots }
-    let (c', rs) := metropolisSweep H (parseRat beta) (parseNat cutoff) c (RS.ofScript (parseNats script))
-    showRes c' rs
-  | ["hsweep", ham, table, beta, cutoff, state, slots, script] =>
-    let H := tableHam (parseTableHam ham)
-    let bw : BW := parseRats table
-    let c : Config := { state := parseBits state, slots := parseSlots slots }
-    let (c', rs) := heatBathSweep H bw (parseRat beta) (parseNat cutoff) c (RS.ofScript (parseNats script))
-    showRes c' rs
-  | ["bw", ham] =>
-    let H := tableHam (parseTableHam ham)
-    let bw := makeBondWeights H
-    s!"{showRats bw} {showRats (cumul bw)}"
-  | ["mprob", ham, beta, cutoff, state, slots, script, k, b] =>
-    let H := tableHam (parseTableHam ham)
-    let β := parseRat beta
-    let L := parseNat cutoff
-    let c : Config := { state := parseBits state, slots := parseSlots slots }
-    let (_, st, n, rs) := sweepPrefix (metropolisSlot H β L) L (parseNat k) c (RS.ofScript (parseNats script))
-    let bond := parseNat b
-    let sub := readVars st (H.vars bond)
-    let w := H.w bond sub sub
-    if rs.panicked || rs.short then "PANIC" else
-    if rs.margin < 1 / 1000000000 then "?" else
-    s!"{n} {showApprox (1 / (H.nbonds : Rat))} {showApprox (accInsM β H.nbonds w L n)} {showApprox (accRemM β H.nbonds w L (n + 1))}"
-  | ["hprob", ham, table, beta, cutoff, state, slots, script, k, b] =>
-    let H := tableHam (parseTableHam ham)
-    let bw : BW := parseRats table
-    let β := parseRat beta
-    let L := parseNat cutoff
-    let c : Config := { state := parseBits state, slots := parseSlots slots }
-    let (_, st, n, rs) := sweepPrefix (heatBathSlot H bw β L) L (parseNat k) c (RS.ofScript (parseNats script))
-    let bond := parseNat b
-    let sub := readVars st (H.vars bond)
-    let w := H.w bond sub sub
-    let W := (bwTotal bw).getD 0
-    let mw := bw.getD bond 0
-    let acc : Rat := if mw = 0 then 0 else clip1 (w / mw)
-    if rs.panicked || rs.short then "PANIC" else
-    if rs.margin < 1 / 1000000000 then "?" else
-    s!"{n} {showApprox (β * W / (((L - n : Nat) : Rat) + β * W))} {showApprox (mw / W)} {showApprox acc} {showApprox (pRemoveHB β W L (n + 1))}"
-  | _ => "bad-op"
+def step (toks : List String) : String := (diagStep toks).getD "bad-op"
 
 def main : IO Unit := run step
